@@ -13,6 +13,10 @@ import (
 
 var progress atomic.Int64
 
+// HangBudget is the wall-clock time without progress and without CPU use after
+// which the worker gives up (set before StartWatchdog).
+var HangBudget = 120 * time.Second
+
 // Tick records that the harness made progress (a step reached quiescence, a
 // case began or ended). The watchdog measures CPU time and heap between ticks.
 func Tick() { progress.Add(1) }
@@ -33,23 +37,34 @@ func StartWatchdog(cpuBudget float64, heapBudget uint64) {
 		last := progress.Load()
 		cpu0 := cpuSeconds()
 		heap0 := heapBytes()
+		t0 := time.Now()
 		for {
 			time.Sleep(100 * time.Millisecond)
 			p := progress.Load()
 			if p != last {
-				last, cpu0, heap0 = p, cpuSeconds(), heapBytes()
+				last, cpu0, heap0, t0 = p, cpuSeconds(), heapBytes(), time.Now()
 				continue
 			}
 			used := cpuSeconds() - cpu0
 			h := heapBytes()
 			var why string
+			hang := false
 			if used > cpuBudget {
 				why = fmt.Sprintf("step used %.1fs of CPU without reaching quiescence", used)
 			} else if h > heap0 && h-heap0 > heapBudget {
 				why = fmt.Sprintf("heap grew by %d MiB within one step without further input", (h-heap0)>>20)
+			} else if time.Since(t0) > HangBudget && used < 2 {
+				why = fmt.Sprintf("HANG: no progress for %v with an idle CPU: some goroutine is blocked where quiescence cannot be reached (lock held by a parked goroutine, or kernel I/O)", HangBudget)
+				hang = true
 			}
 			if why == "" {
 				continue
+			}
+			if hang {
+				buf := make([]byte, 8<<20)
+				n := runtime.Stack(buf, true)
+				fmt.Fprintf(os.Stderr, "WATCHDOG: %s\n\n%s\n", why, buf[:n])
+				syscall.Exit(98)
 			}
 			buf := make([]byte, 4<<20)
 			n := runtime.Stack(buf, true)
